@@ -4,9 +4,14 @@
 //!        mmtk-verif --child <ID> <args...>      (internal: worker process)
 
 #![allow(clippy::type_complexity)]
+#![allow(dead_code)]
 
 mod common;
 mod metaops;
+mod monitors;
+mod progs;
+mod shadow_check;
+mod shadowvm;
 mod props;
 mod seqx;
 mod vm;
